@@ -280,16 +280,31 @@ func adaptersJSON(data []byte, o *obs) string {
 	return string(out)
 }
 
-// adaptersTWKB: the three header-only readers.
+var errSkip = fmt.Errorf("c08: outcome already recorded")
+
+// adaptersTWKB: the three header-only readers. x = UnmarshalTWKBSize returned, without error, a
+// size that is negative or larger than the input.
 func adaptersTWKB(data []byte, o *obs) string {
 	var out []byte
 	add := func(name string, f func() error) {
+		k := len(out)
 		c, m := call(f)
+		if len(out) > k { // the callee recorded its own outcome character
+			return
+		}
 		o.note(prefix(name+": ", m))
 		out = append(out, c)
 	}
 	add("UnmarshalTWKBEnvelope", func() error { _, _, err := geom.UnmarshalTWKBEnvelope(data); return err })
-	add("UnmarshalTWKBSize", func() error { _, _, err := geom.UnmarshalTWKBSize(data); return err })
+	add("UnmarshalTWKBSize", func() error {
+		n, has, err := geom.UnmarshalTWKBSize(data)
+		if err == nil && has && (n < 0 || n > len(data)) {
+			out = append(out, 'x') // a size that is not a length of a prefix of the input
+			o.note(fmt.Sprintf("UnmarshalTWKBSize returned %d for %d bytes of input", n, len(data)))
+			panic(errSkip)
+		}
+		return err
+	})
 	add("UnmarshalTWKBIDList", func() error { _, _, err := geom.UnmarshalTWKBIDList(data); return err })
 	return string(out)
 }
